@@ -323,6 +323,9 @@ pub enum Values {
     /// one magnitude per *vector*: uniform in [-1,1) times 10^k with k drawn per vector from
     /// {-9,-8,-8,-4,0,0,0,2,3,6} (and 19 when the flag is set: squared norms overflow f32)
     Mixed(bool),
+    /// a tight cluster far from the origin (the first vector of the index is its centre) plus 5 % outliers
+    /// around it: every split attempt is heavily unbalanced
+    Clustered,
 }
 
 #[derive(Clone, Debug)]
@@ -451,6 +454,13 @@ pub fn gen_vec(rng: &mut StdRng, dims: usize, values: Values, pool: &[Vec<f32>])
             })
             .collect(),
         Values::Degenerate(k) => crate::props::degenerate::gen_degenerate(rng, dims, k, pool),
+        Values::Clustered => match pool.first() {
+            None => (0..dims).map(|_| rng.gen_range(-1.0f32..1.0) * 50.0).collect(),
+            Some(c) => {
+                let spread = if rng.gen_bool(0.05) { 30.0 } else { 0.05 };
+                c.iter().map(|x| x + rng.gen_range(-1.0f32..1.0) * spread).collect()
+            }
+        },
         Values::Mixed(huge) => {
             const KS: [i32; 11] = [-9, -8, -8, -4, 0, 0, 0, 2, 3, 6, 19];
             let k = KS[rng.gen_range(0..if huge { 11 } else { 10 })];
